@@ -403,6 +403,175 @@ fn registered(cx: &mut Cx) {
 	let _ = std::marker::PhantomData::<LocatedTxKernel>;
 }
 
+// ---------------------------------------------------------------------------------------------
+// the real API object (`grin_api::Foreign`, what the v2 JSON-RPC and the v1 REST handlers call) on a real
+// chain of 12 blocks, with arbitrary parameter values: every call under `catch` AND a watchdog (a call
+// that has not returned after WATCHDOG_MS is a hang). EVERY parameter - the range ends included - takes
+// boundary and huge values (2^40, 2^63, 2^64-1): get_unspent_outputs, get_outputs / outputs_block_batch
+// and get_blocks looped over the REQUESTED range until repairs 565fae636, 2b0ddc88a, be3c15eed (findings
+// C11-api-elements-from-pmmr-index-unbounded, C11-api-outputs-block-batch-unbounded,
+// C11-api-get-blocks-unbounded); a hang or panic on a range parameter prints
+// `#ORACLE-FAIL C11 api-unbounded-range <fn> <params>` again.
+
+const WATCHDOG_MS: u64 = 4000;
+
+type Api = grin_api::Foreign<grin_servers::common::adapters::PoolToChainAdapter, grin_servers::common::adapters::PoolToNetAdapter>;
+
+struct Node {
+	api: std::sync::Arc<Api>,
+	_chain: std::sync::Arc<grin_chain::Chain>,
+	_pool: std::sync::Arc<grin_util::RwLock<grin_pool::TransactionPool<grin_servers::common::adapters::PoolToChainAdapter, grin_servers::common::adapters::PoolToNetAdapter>>>,
+	_sync: std::sync::Arc<grin_chain::SyncState>,
+	commits: Vec<String>,
+	hashes: Vec<String>,
+	head: u64,
+}
+
+fn mk_node() -> Option<Node> {
+	use gvharness::chainkit::*;
+	use std::sync::Arc;
+	let work = std::env::var("VERIF_WORK").unwrap_or_else(|_| "/verif/work/serapi".to_string());
+	let mut kit = Kit::new(&format!("{}/kit", work));
+	let dir = format!("{}/node", work);
+	let _ = std::fs::remove_dir_all(&dir);
+	let chain = Arc::new(init_chain(&dir, kit.genesis.clone()).ok()?);
+	let mut parent = 0usize;
+	for _ in 0..12 {
+		let id = kit.new_block(parent, 3, &[]).ok()?;
+		let b = kit.blks[id].block.clone();
+		chain.process_block(b, grin_chain::Options::SKIP_POW).ok()?;
+		parent = id;
+	}
+	let dcfg = grin_pool::DandelionConfig { epoch_secs: 60_000, embargo_secs: 0, aggregation_secs: 0, stem_probability: 0, always_stem_our_txs: false };
+	let pool_adapter = Arc::new(grin_servers::common::adapters::PoolToChainAdapter::new());
+	let net = Arc::new(grin_servers::common::adapters::PoolToNetAdapter::new(dcfg));
+	let pool = Arc::new(grin_util::RwLock::new(grin_pool::TransactionPool::new(
+		grin_pool::types::PoolConfig { accept_fee_base: 1, reorg_cache_period: 30, max_pool_size: 50, max_stempool_size: 50, mineable_max_weight: 400 },
+		pool_adapter.clone(),
+		net,
+	)));
+	pool_adapter.set_chain(chain.clone());
+	let sync = Arc::new(grin_chain::SyncState::new());
+	let api = Arc::new(grin_api::Foreign::new(Arc::downgrade(&chain), Arc::downgrade(&pool), Arc::downgrade(&sync)));
+	let commits: Vec<String> = kit.blks.iter().flat_map(|b| b.block.outputs().iter().map(|o| hx(&o.commitment().0)).collect::<Vec<_>>()).collect();
+	let hashes: Vec<String> = kit.blks.iter().map(|b| { use grin_core::core::hash::Hashed; hx(b.block.hash().as_bytes()) }).collect();
+	let head = chain.head().ok()?.height;
+	Some(Node { api, _chain: chain, _pool: pool, _sync: sync, commits, hashes, head })
+}
+
+/// run `f` on its own thread; Ok(class) | Err("panic …") | Err("HANG")
+fn guarded<F: FnOnce() -> String + Send + 'static>(f: F) -> Result<String, String> {
+	let (tx, rx) = std::sync::mpsc::channel();
+	std::thread::spawn(move || {
+		gvharness::chainkit::setup_globals();
+		let r = catch(AssertUnwindSafe(f));
+		let _ = tx.send(r);
+	});
+	match rx.recv_timeout(std::time::Duration::from_millis(WATCHDOG_MS)) {
+		Ok(Ok(c)) => Ok(c),
+		Ok(Err(m)) => Err(format!("panic {}", m.replace('\n', " "))),
+		Err(_) => Err("HANG".to_string()),
+	}
+}
+
+fn cls<T, E>(r: Result<T, E>) -> String {
+	if r.is_ok() { "ok".to_string() } else { "err".to_string() }
+}
+
+fn call(cx: &mut Cx, what: &str, desc: String, probe: bool, f: Box<dyn FnOnce() -> String + Send>) {
+	let t0 = std::time::Instant::now();
+	let r = guarded(f);
+	let ms = t0.elapsed().as_millis();
+	match r {
+		Ok(c) => {
+			cx.stat(&format!("handler {} {}", what, c));
+			if probe {
+				cx.out.raw(&format!("#STAT probe {} {} -> {} in {} ms", what, desc, c, ms));
+			}
+		}
+		Err(e) => {
+			if probe {
+				cx.out.raw(&format!("#STAT probe {} {} -> {} (watchdog {} ms)", what, desc, e, WATCHDOG_MS));
+			} else {
+				cx.fail("C11", format!("api-unbounded-range {} {} -> {}", what, desc, e));
+			}
+		}
+	}
+}
+
+fn handlers(cx: &mut Cx, probe: bool) {
+	let node = match mk_node() {
+		Some(n) => n,
+		None => {
+			cx.fail("C11", "api-handler: the test node could not be built".to_string());
+			return;
+		}
+	};
+	let head = node.head;
+	let huge: Vec<u64> = vec![u64::MAX, u64::MAX - 1, 1 << 63, 1 << 40, 10_000_000_000];
+	let small: Vec<u64> = vec![0, 1, 2, head - 1, head, head + 1, head + 64];
+	if probe {
+		// ranges far beyond the chain: the loops of get_blocks / get_unspent_outputs run over the REQUESTED range
+		for end in [head + 1_000_000, 1 << 40, u64::MAX] {
+			let a = node.api.clone();
+			call(cx, "get_blocks", format!("start_height=0 end_height={} max=10", end), true, Box::new(move || cls(a.get_blocks(0, end, 10, None))));
+			let a = node.api.clone();
+			call(cx, "get_blocks", format!("start_height=0 end_height={} max=1000 (more than the chain has)", end), true, Box::new(move || cls(a.get_blocks(0, end, 1000, None))));
+			let a = node.api.clone();
+			call(cx, "get_unspent_outputs", format!("start_index=1 end_index={} max=1000", end), true, Box::new(move || cls(a.get_unspent_outputs(1, Some(end), 1000, None))));
+			let a = node.api.clone();
+			call(cx, "get_outputs", format!("commits=None start_height=0 end_height={}", end), true, Box::new(move || cls(a.get_outputs(None, Some(0), Some(end), None, None))));
+		}
+		return;
+	}
+	// get_blocks / get_unspent_outputs / get_pmmr_indices: ranges within head + 64, every other parameter free
+	for s in small.iter().chain(huge.iter()) {
+		for e in small.iter().chain(huge.iter()) {
+			for max in [0u64, 1, 10, 1000, u64::MAX] {
+				let (a, s, e) = (node.api.clone(), *s, *e);
+				call(cx, "get_blocks", format!("start={} end={} max={}", s, e, max), false, Box::new(move || cls(a.get_blocks(s, e, max, Some(max % 2 == 0)))));
+				let (a, s, e) = (node.api.clone(), s, e);
+				call(cx, "get_unspent_outputs", format!("start={} end={} max={}", s, e, max), false, Box::new(move || cls(a.get_unspent_outputs(s, Some(e), max, Some(true)))));
+			}
+			let (a, s2, e2) = (node.api.clone(), *s, *e);
+			call(cx, "get_pmmr_indices", format!("start={} end={}", s2, e2), false, Box::new(move || cls(a.get_pmmr_indices(s2, Some(e2)))));
+			let (a, s2, e2) = (node.api.clone(), *s, *e);
+			call(cx, "get_outputs", format!("range {}..{}", s2, e2), false, Box::new(move || cls(a.get_outputs(None, Some(s2), Some(e2), Some(true), Some(true)))));
+		}
+		let (a, s2) = (node.api.clone(), *s);
+		call(cx, "get_unspent_outputs", format!("start={} end=None", s2), false, Box::new(move || cls(a.get_unspent_outputs(s2, None, 100, None))));
+		let (a, s2) = (node.api.clone(), *s);
+		call(cx, "get_pmmr_indices", format!("start={} end=None", s2), false, Box::new(move || cls(a.get_pmmr_indices(s2, None))));
+		let (a, s2) = (node.api.clone(), *s);
+		call(cx, "get_header", format!("height={}", s2), false, Box::new(move || cls(a.get_header(Some(s2), None, None))));
+		let (a, s2) = (node.api.clone(), *s);
+		call(cx, "get_block", format!("height={}", s2), false, Box::new(move || cls(a.get_block(Some(s2), None, None))));
+	}
+	// ids: real commitments / hashes, every odd string, lists with bad members
+	let mut ids: Vec<String> = ODD_STRINGS.iter().map(|x| x.to_string()).collect();
+	ids.extend(node.commits.iter().take(6).cloned());
+	ids.extend(node.hashes.iter().take(4).cloned());
+	ids.push("ab".repeat(5000));
+	for id in ids.iter() {
+		let (a, i) = (node.api.clone(), id.clone());
+		call(cx, "get_header", "commit=<id>".to_string(), false, Box::new(move || cls(a.get_header(None, None, Some(i)))));
+		let (a, i) = (node.api.clone(), id.clone());
+		call(cx, "get_block", "commit=<id>".to_string(), false, Box::new(move || cls(a.get_block(None, None, Some(i)))));
+		let (a, i) = (node.api.clone(), id.clone());
+		call(cx, "get_header", "hash=<id>".to_string(), false, Box::new(move || cls(grin_util::from_hex(&i).map_err(|_| ()).and_then(|v| a.get_header(None, Some(Hash::from_vec(&v)), None).map_err(|_| ())))));
+		for (mn, mx) in [(None, None), (Some(0), Some(0)), (Some(u64::MAX), Some(0)), (Some(5), Some(head + 64)), (Some(0), Some(u64::MAX))] {
+			let (a, i) = (node.api.clone(), id.clone());
+			call(cx, "get_kernel", "excess=<id>".to_string(), false, Box::new(move || cls(a.get_kernel(i, mn, mx))));
+		}
+		let (a, i, good) = (node.api.clone(), id.clone(), node.commits[0].clone());
+		call(cx, "get_outputs", "commits=[good,<id>,good]".to_string(), false, Box::new(move || cls(a.get_outputs(Some(vec![good.clone(), i, good]), None, None, Some(true), Some(true)))));
+	}
+	let a = node.api.clone();
+	call(cx, "get_outputs", "commits=[]".to_string(), false, Box::new(move || cls(a.get_outputs(Some(vec![]), None, None, None, None))));
+	let a = node.api.clone();
+	call(cx, "get_tip", String::new(), false, Box::new(move || cls(a.get_tip())));
+}
+
 fn probe(cx: &mut Cx) {
 	finish_lines(cx, true);
 	rp_line(cx, Some(""), true);
@@ -418,10 +587,11 @@ fn main() {
 	grin_core::global::set_local_chain_type(grin_core::global::ChainTypes::AutomatedTesting);
 	let args: Vec<String> = std::env::args().collect();
 	let mut cx = Cx { out: Out::stdout(), rng: Rng::new(seed_from_env() ^ 0xa91), stats: BTreeMap::new(), fails: 0 };
-	if args.get(1).map(|s| s.as_str()) == Some("probe") {
-		probe(&mut cx);
-	} else {
-		registered(&mut cx);
+	match args.get(1).map(|s| s.as_str()) {
+		Some("probe") => probe(&mut cx),
+		Some("handlers") => handlers(&mut cx, false),
+		Some("handlers-probe") => handlers(&mut cx, true),
+		_ => registered(&mut cx),
 	}
 	let stats = std::mem::take(&mut cx.stats);
 	for (k, v) in stats {
